@@ -239,8 +239,8 @@ def chain_fn(geo, flow_str):
         m._design.find_design()
         exp = FlowConfigType.SYSTEM if flow_str.lower() == 'system' else FlowConfigType.BOREHOLE
         vf = got.get('v_flow')
-        same_flow = isinstance(vf, Sym) and vf.t.eq(flow)
-        return conj([m._design.flow_type == exp, got.get('flow_type') == exp, same_flow, isinstance(m._design.V_flow, Sym) and m._design.V_flow.t.eq(flow)])
+        same_flow = vf is not None and vf == Sym(flow)          # semantic equality, decided by the solver
+        return conj([m._design.flow_type == exp, got.get('flow_type') == exp, same_flow, m._design.V_flow == Sym(flow)])
     return fn
 
 
